@@ -400,6 +400,18 @@ bool StepExtended(ScriptExecutionEnvironment& env, CScript::const_iterator& pc, 
         pushstack(stack, vch1);
         return true;
 
+    case OP_2DIV:
+        // (in -- out)
+        if (stack.size() < 1) return set_error(serror, SCRIPT_ERR_INVALID_STACK_OPERATION);
+        vch1 = stacktop(-1);
+        {
+            CScriptNum num(vch1, env.fRequireMinimal, 5);
+            vch1 = (num / CScriptNum(2)).getvch();
+        }
+        popstack(stack);
+        pushstack(stack, vch1);
+        return true;
+
     case OP_MUL:
     case OP_DIV:
     case OP_MOD:
